@@ -152,10 +152,8 @@ func (p c10) RunBatch(c *fw.Ctx) {
 	for i := 0; i < n; i++ {
 		g := gt.NewGen(c.Rng)
 		stmts := g.Program(5+c.Rng.IntN(26), 1+c.Rng.IntN(2))
-		ref := gt.NewRef()
-		ref.Run(stmts)
-		if ref.Exhausted || ref.BigInPlace {
-			continue
+		if !refSessionUsable(stmts) {
+			continue // non-terminating, or in the region of the aliasing finding (C06) where values may even become cyclic
 		}
 		rr := &gt.Renderer{}
 		var plus []string
